@@ -379,14 +379,44 @@ class Interp:
             env = dict(closure_env) if closure_env else {}
             self.bind_args(node, args, dict(kwargs), env, fn)
             fr = Frame(env, self.p.modules[fn.module], fn.cls, fn, args[0] if args and fn.cls is not None else None)
+            is_gen = self.is_generator(node)
+            if is_gen:
+                env["__yields__"] = []
             try:
                 self.block(node.body, fr)
             except _Return as r:
-                return r.v
-            return None
+                return env["__yields__"] if is_gen else r.v
+            return env["__yields__"] if is_gen else None
         finally:
             self.stack.pop()
             self.depth -= 1
+
+    def is_generator(self, node):
+        c = self.__dict__.setdefault("_gen_cache", {})
+        if id(node) not in c:
+            def has_yield(n, top=True):
+                for ch in ast.iter_child_nodes(n):
+                    if isinstance(ch, (ast.Yield, ast.YieldFrom)):
+                        return True
+                    if isinstance(ch, (ast.FunctionDef, ast.Lambda, ast.ClassDef)):
+                        continue
+                    if has_yield(ch, False):
+                        return True
+                return False
+            c[id(node)] = has_yield(node)
+        return c[id(node)]
+
+    def e_Yield(self, n, fr):
+        if "__yields__" not in fr.env:
+            raise AnalysisAbort("yield outside a modelled generator")
+        fr.env["__yields__"].append(self.eval(n.value, fr) if n.value is not None else None)
+        return None
+
+    def e_YieldFrom(self, n, fr):
+        if "__yields__" not in fr.env:
+            raise AnalysisAbort("yield from outside a modelled generator")
+        fr.env["__yields__"].extend(self.iterate(self.eval(n.value, fr)))
+        return None
 
     def bind_args(self, node, args, kwargs, env, fn=None):
         a = node.args
@@ -619,13 +649,39 @@ class Interp:
         if m.name == "sys":
             if name == "exc_info":
                 return lambda: (None, None, None)
+        if m.name in ("math", "operator", "functools", "itertools", "string", "textwrap") and not (m.name == "itertools" and name == "product"):
+            import math as _m, operator as _o, functools as _f, itertools as _i, string as _s, textwrap as _t
+            host = getattr({"math": _m, "operator": _o, "functools": _f, "itertools": _i, "string": _s, "textwrap": _t}[m.name], name, None)
+            if host is None:
+                raise PyRaise("AttributeError", node, f"module '{m.name}' has no attribute '{name}'")
+            if not callable(host):
+                return host
+            I2 = self
+
+            def wrapped(*a, **k):
+                a2 = []
+                for x in a:
+                    if isinstance(x, (Bound, ClsMethod, Closure, FuncInfo, BT, ClassInfo)):
+                        a2.append(lambda *aa, _x=x, **kk: I2.call(_x, list(aa), kk))
+                    elif isinstance(x, (Obj, PyModel)) and m.name in ("itertools", "functools"):
+                        a2.append(I2.iterate(x))
+                    elif isinstance(x, TInt) and m.name == "math":
+                        I2.tainted(f"math.{name} of a length-derived integer")
+                        a2.append(int(x))
+                    else:
+                        a2.append(x)
+                r = host(*a2, **k)
+                if m.name == "itertools":
+                    return list(r)
+                return r
+            return wrapped
         if m.name in ("re", "unicodedata"):        # pure standard-library text functions: evaluated as they are
             import re as _re, unicodedata as _ud
             return getattr({"re": _re, "unicodedata": _ud}[m.name], name)
         if m.name == "itertools" and name == "product":
             import itertools as _it
             return lambda *its, repeat=1: list(_it.product(*[self.iterate(i) for i in its], repeat=repeat))
-        if m.name.split(".")[0] in ("scipy", "pandas", "itertools", "os", "pickle", "matplotlib", "plotly"):
+        if m.name.split(".")[0] in ("scipy", "pandas", "os", "pickle", "matplotlib", "plotly", "warnings", "typing", "collections"):
             return ExtModule(full)
         if m.name == "copy":
             if name == "copy":
@@ -650,6 +706,8 @@ class Interp:
             "clip": lambda a, lo, hi: el("clip", a, lo, hi), "isfinite": lambda a: el("isfinite", a),
             "float64": lambda a: a, "errstate": None,
         }
+        if name == "errstate":
+            return lambda **k: None
         if name in ("sqrt", "ceil", "floor", "log", "exp", "abs", "round", "rint"):
             import math
             hostf = {"sqrt": math.sqrt, "ceil": math.ceil, "floor": math.floor, "log": math.log, "exp": math.exp, "abs": abs, "round": round, "rint": round}[name]
@@ -1198,6 +1256,22 @@ class Interp:
             self.do_raise(s, fr)
         elif isinstance(s, ast.Try):
             self.do_try(s, fr)
+        elif isinstance(s, ast.With):
+            entered = []
+            for item in s.items:
+                cm = self.eval(item.context_expr, fr)
+                val = cm
+                if isinstance(cm, Obj) and self.p.find_attr(cm.cls, "__enter__"):
+                    val = self.call_method(cm, "__enter__")
+                    entered.append(cm)
+                if item.optional_vars is not None:
+                    self.assign(item.optional_vars, val, fr)
+            try:
+                self.block(s.body, fr)
+            finally:
+                for cm in reversed(entered):
+                    if self.p.find_attr(cm.cls, "__exit__"):
+                        self.call_method(cm, "__exit__", None, None, None)
         elif isinstance(s, ast.Pass):
             pass
         elif isinstance(s, ast.Break):
